@@ -156,3 +156,138 @@ def gen_classmap(r):
         x = r.choice(gids_seen) if gids_seen and r.random() < 0.6 else r.randrange(0, 64)
         probes.append("%d.%d" % (cid, x))
     return wide, b, ",".join(probes)
+
+
+# ---------------------------------------------------------------------------------------------------------------------------
+# whole Silf tables and sub-tables (Face::readGraphite, Silf::readGraphite)
+
+def silf_anatomy(silf):
+    """where the numbers of an uncompressed Silf table (versions 2..5) are: {"version", "base", "nsub", "subs": [(off, end)],
+    "fields": [(name, absolute offset, size)] of the first sub-table}; None if the table cannot be walked"""
+    try:
+        version = struct.unpack(">I", silf[0:4])[0]
+        p = 4
+        if version >= 0x00030000:
+            p += 4
+        nsub = struct.unpack(">H", silf[p:p + 2])[0]
+        base = p + 4
+        if nsub < 1:
+            return None
+        offs = [struct.unpack(">I", silf[base + 4 * i:base + 4 * i + 4])[0] for i in range(nsub)] + [len(silf)]
+        subs = [(offs[i], offs[i + 1]) for i in range(nsub)]
+        off, end = subs[0]
+        sub = silf[off:end]
+        fields = []
+        q = 0
+        if version >= 0x00030000:
+            q += 8
+        for name, sz in (("maxGlyph", 2), ("extraAscent", 2), ("extraDescent", 2), ("numPasses", 1), ("sPass", 1), ("pPass", 1), ("jPass", 1),
+                         ("bPass", 1), ("flags", 1), ("maxPre", 1), ("maxPost", 1), ("aPseudo", 1), ("aBreak", 1), ("aBidi", 1), ("aMirror", 1),
+                         ("aPassBits", 1), ("numJusts", 1)):
+            fields.append((name, off + q, sz))
+            q += sz
+        npasses = sub[fields[3][1] - off]
+        q += 8 * sub[q - 1]
+        for name, sz in (("aLig", 2), ("aUser", 1), ("iMaxComp", 1), ("dir", 1), ("aCollision", 1), ("res1", 1), ("res2", 1), ("res3", 1), ("numCrit", 1)):
+            fields.append((name, off + q, sz))
+            q += sz
+        q += 2 * sub[q - 1] + 1
+        fields.append(("numScript", off + q, 1))
+        q += 1 + 4 * sub[q]
+        fields.append(("gEndLine", off + q, 2))
+        q += 2
+        for i in range(npasses + 1):
+            fields.append(("oPass%d" % i, off + q, 4))
+            q += 4
+        fields.append(("numPseudo", off + q, 2))
+        npseudo = struct.unpack(">H", sub[q:q + 2])[0]
+        q += 8 + 6 * npseudo
+        fields.append(("nClass", off + q, 2))
+        fields.append(("nLinear", off + q + 2, 2))
+        if q + 4 > len(sub):
+            return None
+        return {"version": version, "base": base, "nsub": nsub, "subs": subs, "fields": fields}
+    except Exception:
+        return None
+
+
+def _tweak(r, v, size):
+    top = (1 << (8 * size)) - 1
+    return r.choice([0, 1, v + 1, max(0, v - 1), v + 2, top, top - 1, top // 2, top // 2 + 1, 128, 129, 127, 255 & top, r.randrange(top + 1),
+                     v + r.randrange(-8, 9)]) & top
+
+
+def mutate_silf(r, silf, an):
+    """-> bytes: a mutation of a whole Silf table that aims at the numbers Face::readGraphite and Silf::readGraphite compute with"""
+    b = bytearray(silf)
+    k = r.random()
+    if k < 0.45:
+        for _ in range(1 if r.random() < 0.7 else 2):
+            name, o, sz = r.choice(an["fields"])
+            v = int.from_bytes(b[o:o + sz], "big")
+            b[o:o + sz] = _tweak(r, v, sz).to_bytes(sz, "big")
+    elif k < 0.6:
+        # truncation, preferably near where a structure ends
+        cuts = [o + sz for _, o, sz in an["fields"]] + [o for _, o, sz in an["fields"]] + [e for _, e in an["subs"]]
+        c = r.choice(cuts) + r.choice([0, 0, 1, -1, 2, -2, 4, 8]) if r.random() < 0.8 else r.randrange(0, len(b) + 1)
+        b = b[: max(0, min(len(b), c))]
+    elif k < 0.7:
+        # the number of sub-tables and their offsets
+        p = an["base"] - 4
+        m = r.random()
+        if m < 0.4:
+            b[p:p + 2] = struct.pack(">H", r.choice([0, 2, 3, 5, 0xFFFF, 256, an["nsub"] + 1]))
+        elif m < 0.7:
+            o = an["base"]
+            v = struct.unpack(">I", b[o:o + 4])[0]
+            b[o:o + 4] = struct.pack(">I", _tweak(r, v, 4))
+        else:
+            b[0:4] = struct.pack(">I", r.choice([0x00010000, 0x0001FFFF, 0x00020000, 0x00030000, 0x00040000, 0x00040001, 0x0005FFFF & 0x0004FFFF, 0x00060000, 0xFFFFFFFF]))
+    elif k < 0.8 and an["nsub"] == 1:
+        # the same sub-table two or three times, one behind the other: the loop over the sub-tables
+        off, end = an["subs"][0]
+        n = r.choice([2, 2, 3])
+        sub = bytes(b[off:end])
+        hdr = bytearray(b[: an["base"]])
+        hdr[an["base"] - 4: an["base"] - 2] = struct.pack(">H", n)
+        first = an["base"] + 4 * n
+        offs = [first + i * len(sub) for i in range(n)]
+        if r.random() < 0.3:
+            i = r.randrange(n)
+            offs[i] = max(0, offs[i] + r.choice([-1, 1, len(sub), -len(sub), 20, -20]))
+        # the pass offsets inside a sub-table are relative to the sub-table: copies stay valid
+        b = hdr + b"".join(struct.pack(">I", o & 0xFFFFFFFF) for o in offs) + sub * n
+        if r.random() < 0.2:
+            b = b[: len(b) - r.randrange(1, len(sub))]
+    elif k < 0.92:
+        off, end = an["subs"][0]
+        for _ in range(r.randrange(1, 4)):
+            i = off + r.randrange(0, min(end - off, 120))
+            if i < len(b):
+                b[i] = r.choice([0, 1, 0xFF, b[i] ^ (1 << r.randrange(8)), r.randrange(256)])
+    else:
+        # a tiny table: header and a sub-table cut to a few dozen bytes
+        off, end = an["subs"][0]
+        n = r.randrange(0, 64)
+        b = b[: an["base"] + 4] + b[off: off + n]
+        b[an["base"]: an["base"] + 4] = struct.pack(">I", r.choice([an["base"] + 4, 0, an["base"], 8, 12]))
+    return bytes(b)
+
+
+def silf_pool(r, fonts_dir, nsynth, big=False):
+    """[(font path, Silf table bytes, anatomy)]: shipped fonts with a small uncompressed Silf table and synthesised fonts (written
+    to `scratch` by the caller)"""
+    import sfnt
+    names = ["general.ttf", "grtest1gr.ttf", "small.ttf", "PigLatinBenchmark_v3.ttf", "Charis5_eursub.ttf"]
+    if big:
+        names += ["Annapurnarc2.ttf", "Padauk.ttf"]
+    pool = []
+    for f in names:
+        try:
+            s = sfnt.read_tables(fonts_dir / f)["Silf"]
+            an = silf_anatomy(s)
+            if an:
+                pool.append((str(fonts_dir / f), s, an))
+        except Exception:
+            pass
+    return pool
